@@ -412,5 +412,5 @@ def run(ctx):
 MANIFEST_ENTRY = {
     "technique": "static analysis: MIR call-site scan for hash-collection iteration and ambient-input APIs, ADT field-type scan, abstract evaluation (rules/absint.py) of the file-format dispatch (de_inner under each feature), of the field-keyed serde visitors on every order of the same fields, and of every string callback of the value visitor against the parser (the callbacks different formats use must be the same function: shared with C01.R0); MIR return summaries of the 30 RangeNumber::from_* impls (a number is accepted alike whichever 64-bit form the file format hands over)",
     "level_text": "Structural: the sources of nondeterminism that could reach generated code or diagnostics (unordered iteration, ambient inputs) are shown absent from every loading body by resolved-callee inspection, and the three format front-ends are shown to share one seed/visitor. Holds for all inputs; does not compare outputs.",
-    "level_note": "Trusted: the list of iterating / ambient APIs in rules/c10.py; serde front-ends. Not decided: equality of events delivered by different formats for the same data.",
+    "level_note": "Trusted: the list of iterating / ambient APIs in rules/c10.py; serde front-ends. Not decided: equality of events delivered by different formats for the same data. Known and undecided (DESIGN 11.17, hunts/C10): json5 0.4.1 decodes escaped code points >= U+20000 to the wrong plane and rejects U+2028; the same number literal (-0, 17-digit floats, > u64) differs between formats; the first error reported depends on key order.",
 }
